@@ -361,7 +361,14 @@ CLAIMED['C03'] = dict(
          'in seconds for every spelling, affinity and its limits, demand and capacity order, identity group, the '
          'priority rule - reaches the scheduler object unchanged; a reload of an existing instance refreshes only '
          'priority, data retention and the blacklist flag (C06L_refresh_frame); correspondence stage on 2400 / 40000 '
-         'structured manifests and server records through the real Loader.'),
+         'structured manifests and server records through the real Loader. Where valid_until comes from (sub-agent): '
+         'Sched/Reboot.v + Props/C03Reboot.v, 21 theorems over a model of Partition / RebootBucket / reboot_dates '
+         '(constants and statement shapes re-extracted every run, C03R_tables_ok): the chosen reboot time is a '
+         'bucket of the partition, lies in [up_since + MIN_SERVER_UPTIME, up_since + DEFAULT_SERVER_UPTIME] whenever '
+         'such a bucket exists and the server is not overdue, the overdue rule, least-loaded with ties to the latest, '
+         'and for every reachable Partition state no server is scheduled for a reboot earlier than MIN_SERVER_UPTIME '
+         'after its boot (C03R_no_early_reboot); correspondence on the real Partition objects after every call, and '
+         'oracle-only flows through the real Master/Loader.'),
     note=SCHED_NOTE + ' Hypotheses of the all-histories theorems (wf_ops_all): a new server or instance has a fresh name and vectors of '
          'the cell dimension, a new instance record is not placed and holds no identity, configured counts are '
          'non-negative.',
